@@ -41,44 +41,51 @@ inductive UEv where
   | tick (d : Int)
   deriving Repr, Inhabited
 
-/-- normalise: perform leading silent calls -/
-def UClient.settle (c : UClient) (s : AbsState) (clock : Int) : AbsState × UClient :=
-  let (s', p') := Prog.skipSilent 64 c.prog s clock
-  (s', { c with prog := p' })
+/-- normalise: perform leading silent calls; returns the names of the silent repository calls performed -/
+def UClient.settle (c : UClient) (s : AbsState) (clock : Int) : AbsState × UClient × List String :=
+  let (s', p', names) := Prog.skipSilent 64 c.prog s clock []
+  (s', { c with prog := p' }, names)
 
-def USys.settleAll (s : USys) : USys :=
-  let (abs, cs) := s.clients.foldl (fun (acc : AbsState × List UClient) c =>
-    if c.dead then (acc.1, acc.2 ++ [c]) else let (a', c') := c.settle acc.1 s.clock; (a', acc.2 ++ [c'])) (s.abs, [])
-  { s with abs := abs, clients := cs }
-
-def USys.step (s : USys) : UEv → USys
-  | .tick d => { s with clock := s.clock + d }
+/-- one event; also returns the repository calls performed, as `"<i>:<name>"` -/
+def USys.stepT (s : USys) : UEv → USys × List String
+  | .tick d => ({ s with clock := s.clock + d }, [])
   | .call i =>
     match s.clients[i]? with
-    | none => s
+    | none => (s, [])
     | some c =>
-      if !c.live then s
+      if !c.live then (s, [])
       else
-        let (a1, p1) := c.prog.step1 s.abs s.clock
-        let (a2, c2) := ({ c with prog := p1 } : UClient).settle a1 s.clock
-        { s with abs := a2, clients := s.clients.set i c2 }
+        let (a0, c0, n0) := c.settle s.abs s.clock
+        if !c0.live then ({ s with abs := a0, clients := s.clients.set i c0 }, n0.map fun n => s!"{i}:{n}")
+        else
+          let h := c0.prog.headName
+          let (a1, p1) := c0.prog.step1 a0 s.clock
+          let (a2, c2, n2) := ({ c0 with prog := p1 } : UClient).settle a1 s.clock
+          ({ s with abs := a2, clients := s.clients.set i c2 }, (n0 ++ h.toList ++ n2).map fun n => s!"{i}:{n}")
   | .crash i effect =>
     match s.clients[i]? with
-    | none => s
+    | none => (s, [])
     | some c =>
-      if !c.live then s
+      if !c.live then (s, [])
       else
-        let a1 := if effect then (c.prog.step1 s.abs s.clock).1 else s.abs
-        { s with abs := a1, clients := s.clients.set i { c with dead := true } }
+        let (a0, c0, n0) := c.settle s.abs s.clock
+        let h := c0.prog.headName
+        let a1 := if effect then (c0.prog.step1 a0 s.clock).1 else a0
+        let _ := h
+        ({ s with abs := a1, clients := s.clients.set i { c0 with dead := true } }, n0.map fun n => s!"{i}:{n}")
   | .fault i effect =>
     match s.clients[i]? with
-    | none => s
+    | none => (s, [])
     | some c =>
-      if !c.live then s
+      if !c.live then (s, [])
       else
-        let (a1, p1) := c.prog.stepFault effect s.abs s.clock
-        let (a2, c2) := ({ c with prog := p1 } : UClient).settle a1 s.clock
-        { s with abs := a2, clients := s.clients.set i c2 }
+        let (a0, c0, n0) := c.settle s.abs s.clock
+        let h := c0.prog.headName
+        let (a1, p1) := c0.prog.stepFault effect a0 s.clock
+        let (a2, c2, n2) := ({ c0 with prog := p1 } : UClient).settle a1 s.clock
+        ({ s with abs := a2, clients := s.clients.set i c2 }, (n0 ++ h.toList ++ n2).map fun n => s!"{i}:{n}")
+
+def USys.step (s : USys) (e : UEv) : USys := (s.stepT e).1
 
 def USys.run (s : USys) (es : List UEv) : USys := es.foldl USys.step s
 
